@@ -26,6 +26,10 @@ Inductive out :=
 | RNum (n : N)
 | RRange (n : N) (calls : list cbrec).
 
+(* Persister::MaxMsgLen = FIX8_MAX_MSG_LENGTH: the documented maximum length of a persisted message *)
+Definition MAX_MSG_LENGTH : N := 8192.
+Definition len (l : list byte) : N := N.of_nat (length l).
+
 Record spec := { s_msgs : smap (list byte); s_ctl : option (N * N) }.
 Definition spec_empty : spec := {| s_msgs := []; s_ctl := None |}.
 
@@ -73,6 +77,15 @@ Fixpoint spec_run (s : spec) (ops : list op) : spec * list out :=
   end.
 
 Definition spec_outputs (ops : list op) : list out := snd (spec_run spec_empty ops).
+
+(* For a persister that enforces the documented maximum (the file persister since a3cf082): a put of
+   a longer record is a refused put -- exactly like a put to 0: answer false, nothing changes. *)
+Definition clip_op (o : op) : op :=
+  match o with
+  | OPut seq b => if MAX_MSG_LENGTH <? len b then OPut 0 [] else o
+  | _ => o
+  end.
+Definition clip (ops : list op) : list op := map clip_op ops.
 
 (* ---- decidable equality on results (for the executable oracle) ---- *)
 Fixpoint list_eqb {A} (eqb : A -> A -> bool) (a b : list A) : bool :=
